@@ -3,6 +3,16 @@
 import json, sys
 pid, k = sys.argv[1], sys.argv[2]
 p = [json.loads(l) for l in open('/verif/properties.jsonl') if json.loads(l)['id'] == pid][0]
+import glob, os
+used = []
+for d in sorted(glob.glob('/verif/seeded/*')):
+    try:
+        m = json.load(open(os.path.join(d, 'meta.json')))
+    except Exception:
+        continue
+    if m.get('property') == pid:
+        used.append("- " + str(m.get('summary', ''))[:300].replace("\n", " "))
+used_txt = ("\nMechanisms ALREADY USED by earlier changes for this property -- do something different in kind (another function, another mechanism, another part of the property statement):\n" + "\n".join(used) + "\n") if used else ""
 wt = f"/tmp/mut-{pid}-{k}"
 out = f"/tmp/mutout/{pid}-{k}"
 print(f"""You are testing how well a semantic property of a Python library is guarded. The library is drknzz/pabutools (participatory budgeting: elections, satisfaction measures, voting rules, analysis). You have your own scratch git worktree of it at {wt} (create it first: `git -C /repo worktree add --detach {wt} HEAD`). Work ONLY inside {wt} and {out} (create it). Do NOT read or touch /verif or /repo's working tree, do not look for other people's checks; do not commit anything to /repo.
@@ -14,6 +24,7 @@ THE PROPERTY ({p['id']}: {p['title']}):
 It is quantified over: {p['quantifier']['text']}
 Code it is anchored in: {', '.join(p['anchors']['files'])}
 
+{used_txt}
 YOUR TASK: produce TWO independent, realistic source changes (each a separate small patch against the worktree's HEAD, typically 1–10 changed lines, the kind of edit a maintainer could plausibly make during a refactor/optimisation/bug-fix) such that with the change:
   (a) the library still imports and the existing test suite still passes: `cd {wt} && /venv/bin/python -m pytest -q -p no:cacheprovider --timeout=900 tests --deselect tests/PaBuLib/test_pabulib_data.py --deselect tests/test_pabulib.py::TestPabulib::test_url_parse -q` (88 passed);
   (b) the property above is VIOLATED for some input/history/configuration inside its quantifier;
